@@ -281,11 +281,11 @@ def run(chk, R, tier, seed):
     w = predefined_world(CURS)
     prelude = [{"e": M(MONEY, "register_currency", ["s", c])} for c in CURS]
     wrap = lambda jd: (lambda obs, rec, case: jd(obs))      # noqa: E731
-    n = 2400 if tier == "quick" else 60000
+    n = 8000 if tier == "quick" else 60000
     cases = []
     for i in range(n):
         st, jd = money_sub(chk, rng, w, RM.MODES[i % 8])
         cases.append(Case(st, wrap(jd)))
     run_cases(chk, R, cases, per_program=100, prelude=prelude)
-    nw = 40 if tier == "quick" else 1200
+    nw = 100 if tier == "quick" else 1200
     run_cases(chk, R, [price_world(chk, rng, i) for i in range(nw)])
